@@ -108,7 +108,7 @@ class C19(Prop):
         'amount_in_exact', 'amount_in_exact_int', 'hex_transport', 'transport_de', 'b2lx_is_core_form',
         'hash_roundtrip_bytes', 'hash_roundtrip_text', 'hash_roundtrip', 'lx_accepts', 'error_reply_raises',
         'class_of_int_code', 'class_of_registered', 'class_of_odd_codes', 'no_result_without_result',
-        'method_error_never_result', 'ids_gt_counter', 'ids_strictly_increase', 'ids_of_calls')]
+        'method_error_never_result', 'ids_gt_counter', 'ids_strictly_increase', 'ids_of_calls', 'amount_out_exact_partial')]
     anchors = [('bitcoin/rpc.py', 'JSONRPCError.__new__'), ('bitcoin/rpc.py', 'BaseProxy._call'),
                ('bitcoin/rpc.py', 'BaseProxy._batch'), ('bitcoin/rpc.py', 'BaseProxy._get_response'),
                ('bitcoin/rpc.py', 'unhexlify_str'), ('bitcoin/rpc.py', 'hexlify_str'),
